@@ -12,6 +12,7 @@ mod util;
 mod props;
 mod xp;
 mod dommodel;
+mod dompool;
 
 use std::collections::BTreeMap;
 use std::io::Write;
